@@ -19,4 +19,6 @@ run_one() {
 }
 export -f run_one; export ROOT KIND ALL
 if [ "$KIND" = seeded ]; then files=$(ls "$ROOT"/seeded/*/patch.diff); else files=$(ls "$ROOT/$KIND"/*.patch); fi
-echo "$files" | xargs -P "$JOBS" -I{} bash -c 'run_one {}'
+RES="${RESULTS_DIR:-$ROOT/selftest/results}"; mkdir -p "$RES"
+echo "$files" | xargs -P "$JOBS" -I{} bash -c 'run_one {}' | tee "$RES/$KIND.txt.part"
+sort "$RES/$KIND.txt.part" > "$RES/$KIND.txt"; rm -f "$RES/$KIND.txt.part"
